@@ -429,8 +429,13 @@ def check_intent(case, ctx):
         if (r2["status"] == 0) != (r["status"] == 0):
             raise Violation("C20/harness/subprocess-disagrees", "status in process %d, as subprocess %d for %r"
                             % (r["status"], r2["status"], argv))
-        if case["cmd"] != "new" and r["status"] == 0 and r["out"] != r2["out"]:
-            raise Violation("C20/harness/subprocess-disagrees", "stdout differs between in-process and subprocess run")
+        if case["cmd"] != "new" and r["status"] == 0:
+            try:
+                same = json.loads(r["out"]) == json.loads(r2["out"])
+            except ValueError:
+                same = True   # not JSON on stdout (output went to a file): the file contents were judged above
+            if not same:
+                raise Violation("C20/harness/subprocess-disagrees", "stdout JSON differs between in-process and subprocess run")
 
 
 def nt_intent(case):
@@ -441,6 +446,26 @@ def nt_intent(case):
 def classes_intent(case):
     return ["cmd:" + case["cmd"], "fault:" + case["fault"], "file:" + case["file"],
             "paranoia" if case["paranoia"] else "plain"]
+
+
+FAULT_CMD = {"words": "from-mnemonic", "seed-len": "from-bip39-seed", "seed-nonhex": "from-bip39-seed",
+             "entropy-len": "from-entropy-hex", "entropy-nonhex": "from-entropy-hex", "xkey-len": "from-master-xprv",
+             "xkey-checksum": "from-master-xprv", "xkey-public": "from-master-xprv", "mnemonic-len": "new"}
+
+
+def enum_grid(tier):
+    """Every fault kind crossed with every file-path state (one intent each), deterministic."""
+    cmds = ["from-bip39-seed", "from-mnemonic", "from-entropy-hex", "from-master-xprv", "new"]
+    n = 0
+    for fault in sorted(set(FAULTS)):
+        for fstate in sorted(set(FILE_STATES)):
+            n += 1
+            yield {"cmd": FAULT_CMD.get(fault, cmds[n % 5]), "entropy": bytes((n + i) & 0xFF for i in range(16)),
+                   "seed": bytes((n * 7 + i) & 0xFF for i in range(64)), "pw": [None, "", "pw x", " lead", "trail "][n % 5],
+                   "words": 12, "testnet": bool(n & 1), "paranoia": bool(n & 2), "account": [None, 0, 5][n % 3],
+                   "interval": [[0, 1], None, [3, 4], [7, 7]][n % 4] if fault == "none" or n % 2 else [0, 1],
+                   "file": fstate, "fault": fault, "fv": n, "spell": [n % 3, (n // 3) % 3, 0, 0, n % 2, 0],
+                   "order": [0, 1, 2, 3, 4], "subprocess": 99}
 
 
 def gen_thorough(tier):
@@ -460,6 +485,7 @@ def clauses():
                "outside), rows are m/P'/c'/a'/0/i with non-hardened i inside the requested interval; 3% (quick) / 5% "
                "(thorough) re-run as a real `python -m btc_hd_wallet` subprocess; non-trivial = faulted intent or "
                "non-default network/account/interval/file",
-               gen=gen_thorough, nontrivial=nt_intent, classes=classes_intent,
+               gen=gen_thorough, enum=enum_grid, enum_desc="19 fault kinds x 11 file-path states",
+               nontrivial=nt_intent, classes=classes_intent,
                n={"quick": 420, "thorough": 10000}, shards={"quick": 16, "thorough": 16}),
     ]
